@@ -45,6 +45,7 @@ type UFEntry struct {
 }
 
 type CoverWitness struct {
+	Scheduled bool // the path depends on scheduler / select choices that a native run cannot be forced to repeat
 	Tag     string
 	Inputs  []uint64
 	UFTable []UFEntry
